@@ -16,7 +16,6 @@ import (
 	"syscall"
 	"time"
 
-	"verifharness/internal/report"
 	"verifharness/internal/rng"
 	"verifharness/internal/wv"
 )
@@ -537,20 +536,14 @@ func c16ExitOracle(c *checker, sc scenario, res runResult, op, ans string) {
 			// goodbye is sent to every accepted plugin
 			byeFails := !p.bye.good || p.hs.exits || (asked && p.gen.exits)
 			if byeFails {
-				faulty = true
-			}
-			if faulty && !named && named2(res.stderr, p.name) {
-				c.rep.Notes = appendOnce(c.rep.Notes, "a goodbye failure was attributed to the plugin by name: finding D41 appears repaired")
-			}
-			if byeFails && !named && !named2(res.stderr, p.name) && res.exit != 0 {
-				knownD41(c, sc, p, res)
+				faulty, named = true, true // D41 (fixed): a goodbye failure names the plugin too
 			}
 		}
 		if faulty {
 			anyFault = true
 		}
 		if named && !named2(res.stderr, p.name) && res.exit != 0 {
-			c.oracle("C16 failure does not name the plugin", op, ans, sc.label+": "+p.name+" failed (handshake/generate/exit status) but the error output does not mention it: "+firstLine(res.stderr))
+			c.oracle("C16 failure does not name the plugin", op, ans, sc.label+": "+p.name+" failed (handshake/generate/goodbye/exit status) but the error output does not mention it: "+firstLine(res.stderr))
 		}
 		if !faulty && named2(res.stderr, p.name) && !conflictPossible(sc) {
 			c.oracle("C16 error output names a plugin that did not fail", op, ans, sc.label+": "+p.name+" | "+firstLine(res.stderr))
@@ -575,14 +568,6 @@ func appendOnce(xs []string, s string) []string {
 		}
 	}
 	return append(xs, s)
-}
-
-var d41Once sync.Once
-
-func knownD41(c *checker, sc scenario, p pluginSpec, res runResult) {
-	d41Once.Do(func() {
-		c.rep.Known = append(c.rep.Known, report.Known{ID: "D41", What: "a plugin whose goodbye call fails makes thriftrw exit 1 with an error that does not name the plugin (" + sc.label + ", plugin " + p.name + ": " + firstLine(res.stderr) + ")"})
-	})
 }
 
 // conflictPossible: two plugins (or a plugin and the core) may produce the same path; then
